@@ -405,6 +405,12 @@ func ruleStream(c *Ctx) {
 		okDeliver, why := true, ""
 		nBlock, nEnd := 0, 0
 		for _, sp := range fsps {
+			if sp.Feasible() && !sp.Continues {
+				// the forwarding loop is left only when the queue is exhausted (closed by the reader)
+				if len(sp.Conds) == 0 || sp.Conds[0].Other != "branch:range!" {
+					okDeliver, why = false, "the forwarding loop can be left before the queue is exhausted: the result channel is closed without the final error item"+condsDesc(sp, 4)
+				}
+			}
 			if !sp.Feasible() || !sp.Continues {
 				continue
 			}
